@@ -62,6 +62,7 @@ func facts(repo string, w io.Writer) error {
 
 type env struct {
 	dir   string
+	lr    *indexheader.LazyBinaryReader // the same header through the lazy reader (file-based, loaded on first use)
 	br    *indexheader.BinaryReader
 	ir    *index.Reader
 	table map[string][]indexheader.VerifC11Entry
@@ -70,6 +71,9 @@ type env struct {
 }
 
 func (e *env) close() {
+	if e.lr != nil {
+		e.lr.Close()
+	}
 	if e.br != nil {
 		e.br.Close()
 	}
@@ -137,6 +141,12 @@ func build(in input) (*env, error) {
 		return nil, err
 	}
 	e.br, err = indexheader.NewBinaryReader(ctx, log.NewNopLogger(), bkt, "", id, in.Sampling, indexheader.NewBinaryReaderMetrics(nil))
+	if err != nil {
+		return nil, err
+	}
+	// lazy reader over the same block; lazy download of the header file for every other sampling rate
+	e.lr, err = indexheader.NewLazyBinaryReader(ctx, log.NewNopLogger(), bkt, dir, id, in.Sampling,
+		indexheader.NewLazyBinaryReaderMetrics(nil), indexheader.NewBinaryReaderMetrics(nil), nil, in.Sampling%2 == 0)
 	if err != nil {
 		return nil, err
 	}
@@ -263,6 +273,26 @@ func run(raw json.RawMessage) (common.Case, error) {
 			}
 			obs = append(obs, o)
 			qs = append(qs, common.Tuple(strList(q), outS, rangeList(fr)))
+			// the same request through the LazyBinaryReader: one more observed query
+			lout, lerr := e.lr.PostingsOffsets(in.Name, q...)
+			loutS := common.None
+			if lerr == nil {
+				loutS = common.Some(rangeList(lout))
+			}
+			if (lerr != nil || fmt.Sprint(lout) != fmt.Sprint(out)) && c.GoPred == "" {
+				c.GoPred = fmt.Sprintf("LazyBinaryReader.PostingsOffsets(%q, %q) = %v, %v; BinaryReader says %v", in.Name, q, lout, lerr, out)
+				c.Sig = "lazy-reader-differs"
+			}
+			qs = append(qs, common.Tuple(strList(q), loutS, rangeList(fr)))
+			if len(q) == 1 {
+				r1, err1 := e.lr.PostingsOffset(in.Name, q[0])
+				if (err1 != nil) != (fr[0] == indexheader.NotFoundRange) || (err1 == nil && r1 != fr[0]) {
+					if c.GoPred == "" {
+						c.GoPred = fmt.Sprintf("LazyBinaryReader.PostingsOffset(%q,%q) = %v,%v; full index says %v", in.Name, q[0], r1, err1, fr[0])
+						c.Sig = "lazy-reader-differs"
+					}
+				}
+			}
 			// single-value entry point must agree with the multi-value one
 			if len(q) == 1 {
 				r1, err1 := e.br.PostingsOffset(in.Name, q[0])
@@ -282,6 +312,10 @@ func run(raw json.RawMessage) (common.Case, error) {
 		lvFull, err := e.ir.LabelValues(ctx, in.Name, nil)
 		if err != nil {
 			return c, err
+		}
+		if lvLazy, err := e.lr.LabelValues(in.Name); (err != nil || fmt.Sprintf("%q", lvLazy) != fmt.Sprintf("%q", lvFull)) && c.GoPred == "" {
+			c.GoPred = "LazyBinaryReader.LabelValues differ from the full index"
+			c.Sig = "lazy-reader-differs"
 		}
 		if fmt.Sprintf("%q", lvImpl) != fmt.Sprintf("%q", lvFull) && c.GoPred == "" {
 			c.GoPred = "LabelValues differ from the full index"
@@ -309,6 +343,10 @@ func run(raw json.RawMessage) (common.Case, error) {
 			c.GoPred = "LabelNames differ from the full index"
 			c.Sig = "label-names-differ"
 		}
+		if lazyNames, err := e.lr.LabelNames(); (err != nil || fmt.Sprintf("%q", lazyNames) != fmt.Sprintf("%q", full)) && c.GoPred == "" {
+			c.GoPred = "LazyBinaryReader.LabelNames differ from the full index"
+			c.Sig = "lazy-reader-differs"
+		}
 		c.Coq = common.App("CNames", strList(names), strList(impl), strList(full))
 		c.Obs = impl
 		c.Nontrivial = len(impl) >= 2
@@ -325,6 +363,16 @@ func run(raw json.RawMessage) (common.Case, error) {
 		lv, err := e.br.LabelValues(in.Name)
 		if err != nil {
 			return c, err
+		}
+		for _, q := range in.Queries {
+			out, err := e.lr.PostingsOffsets(in.Name, q...)
+			if err != nil {
+				return c, err
+			}
+			ol += len(out)
+		}
+		if lvl, err := e.lr.LabelValues(in.Name); err != nil || len(lvl) != len(lv) {
+			c.GoPred, c.Sig = "LazyBinaryReader.LabelValues of an absent name differs", "lazy-reader-differs"
 		}
 		fullLV, _ := e.ir.LabelValues(ctx, in.Name, nil)
 		if !inTable && (ol != 0 || len(lv) != 0 || len(fullLV) != 0) {
@@ -357,6 +405,11 @@ func run(raw json.RawMessage) (common.Case, error) {
 				c.GoPred = fmt.Sprintf("LookupSymbol differs from the full index symbols (pass %d)", pass)
 				c.Sig = "symbols-differ"
 				break
+			}
+		}
+		for i := range full {
+			if s, err := e.lr.LookupSymbol(ctx, uint32(i)); (err != nil || s != full[i]) && c.GoPred == "" {
+				c.GoPred, c.Sig = fmt.Sprintf("LazyBinaryReader.LookupSymbol(%d) differs from the full index", i), "lazy-reader-differs"
 			}
 		}
 		if _, err := e.br.LookupSymbol(ctx, uint32(len(full))); err == nil && c.GoPred == "" {
